@@ -384,6 +384,9 @@ class Component( ComponentLevel7 ):
 
       # A CL/FL interface of the removed component may be called as a whole
       removed_callees = removed_connectables | foo._collect_all_single( lambda x: isinstance( x, Interface ) )
+      # A block may also mention an interface or a component as a whole
+      # ( helper( s.c.recv ), f( s.c ) ): they are in its read set
+      removed_named = removed_callees | removed_components
 
       removed_blks = {}
       for c in removed_components:
@@ -400,7 +403,7 @@ class Component( ComponentLevel7 ):
           assert blk in top._dsl.all_upblk_reads
           to_save = set()
           for x in reads:
-            if x in removed_connectables:
+            if x in removed_named:
               to_save.add( x )
               saved_upblk_reads.append( (host, blk, repr(x)) )
           hd.upblk_reads[blk] -= to_save
@@ -409,7 +412,7 @@ class Component( ComponentLevel7 ):
           assert blk in top._dsl.all_upblk_writes
           to_save = set()
           for x in writes:
-            if x in removed_connectables:
+            if x in removed_named:
               to_save.add( x )
               saved_upblk_writes.append( (host, blk, repr(x)) )
           hd.upblk_writes[blk] -= to_save
@@ -428,7 +431,7 @@ class Component( ComponentLevel7 ):
         for func, reads in hd.func_reads.items():
           to_save = set()
           for x in reads:
-            if x in removed_connectables:
+            if x in removed_named:
               to_save.add( x )
               saved_func_reads.append( (host, func, repr(x)) )
           hd.func_reads[func] -= to_save
@@ -436,7 +439,7 @@ class Component( ComponentLevel7 ):
         for func, writes in hd.func_writes.items():
           to_save = set()
           for x in writes:
-            if x in removed_connectables:
+            if x in removed_named:
               to_save.add( x )
               saved_func_writes.append( (host, func, repr(x)) )
           hd.func_writes[func] -= to_save
